@@ -44,14 +44,22 @@ def main():
         j = int(args[1]); args = args[2:]
     ids = args or sorted(x for x in os.listdir(SEEDED) if os.path.exists(os.path.join(SEEDED, x, "patch.diff")))
     missed = []
+    respath = os.path.join(SEEDED, "RESULTS.json")
+    results = json.load(open(respath)) if os.path.exists(respath) else {}
+    head = sh("git -C /repo log --format=%h -1").stdout.strip()
+    vhead = sh("git -C /verif log --format=%h -1").stdout.strip()
     with ThreadPoolExecutor(max_workers=j) as ex:
         for sid, prop, res in ex.map(one, ids):
             own = res.get(prop, (None, 0))[0] == 1
+            results[sid] = {"property": prop, "repo_head": head, "verif_head_before_run": vhead, "tier": os.environ.get("TIER", "quick"),
+                            "exit_codes": {c: v[0] for c, v in res.items() if isinstance(v, tuple)},
+                            "violations": {c: v[1] for c, v in res.items() if isinstance(v, tuple)}, "detected_by_own_check": own}
             anyc = any(v[0] == 1 for v in res.values() if isinstance(v, tuple))
             print("%-10s %-4s %s %s" % (sid, prop, "DETECTED" if own else ("detected-by-other" if anyc else "MISSED"), res), flush=True)
             if not own:
                 missed.append(sid)
     sh("git -C /repo worktree prune")
+    json.dump(results, open(respath, "w"), indent=1, sort_keys=True)
     print("changes=%d detected-by-own-check=%d not=%s" % (len(ids), len(ids) - len(missed), missed))
     return 1 if missed else 0
 
